@@ -28,6 +28,8 @@ def _classify(fn, s):
                 seen += [v for v in (x.name, x.capture) if isinstance(v, str)]
             elif isinstance(x, sel.Call):
                 todo += [x.element, *x.captures, *x.children]
+        if getattr(fn, "__name__", "") != "parse":
+            seen = []  # after resolution a name may be any value of the environment, or the text of a quoted string ('=' is a string)
         bad = [v for v in seen if re.fullmatch(r"\s*(?:\bas\b|>>|!+|\[\[|\]\]|[(){}\[\]>:,$=~])\s*", v)]
         if bad:
             return f"operator-token-compiled-as-a-variable-name({bad[0]!r})"
